@@ -10,6 +10,7 @@ import (
 	"time"
 
 	"github.com/WICG/webpackage/go/bundle"
+	"github.com/WICG/webpackage/go/bundle/signature"
 	sxg "github.com/WICG/webpackage/go/signedexchange"
 	"github.com/WICG/webpackage/go/signedexchange/certurl"
 	vh "github.com/WICG/webpackage/go/verifhook"
@@ -202,7 +203,41 @@ func opSxgSignerRekey(a []Sx) Sx {
 	return L(out...)
 }
 
+// conc_bsig_signer ver n seed: ONE bundle signature.Signer (deterministic mock algorithm, one exchange added) whose
+// UpdateSignatures(nil) is called from n goroutines: every call must return the same signatures section
+func opConcBsigSigner(a []Sx) Sx {
+	sigKeysOnce()
+	ver := bverOf(a[0])
+	leaf := sigKeys[0]
+	chain := certurl.CertChain{{Cert: leaf.cert, OCSPResponse: []byte("ocsp")}, {Cert: sigKeys[2].cert}}
+	signer, err := signature.NewSigner(ver, chain, leaf.priv, mustURL("https://"+leaf.cert.DNSNames[0]+"/v"), time.Unix(baseDate, 0), time.Hour)
+	if err != nil {
+		return L(Sym("nosigner"))
+	}
+	signer.Algorithm = &vh.MockSigningAlgorithm{}
+	h := http.Header{}
+	h.Add("Content-Type", "text/plain")
+	e := &bundle.Exchange{Request: bundle.Request{URL: mustURL("https://" + leaf.cert.DNSNames[0] + "/shared"), Header: http.Header{}},
+		Response: bundle.Response{Status: 200, Header: h, Body: []byte("shared signer")}}
+	id, err := e.AddPayloadIntegrity(ver, 16)
+	if err != nil {
+		return L(Sym("nointegrity"))
+	}
+	if err := signer.AddExchange(e, id); err != nil {
+		return L(Sym("noadd"))
+	}
+	r := runMany(a[1].Int(), a[2].U64(), func() Sx {
+		sigs, err := signer.UpdateSignatures(nil)
+		if err != nil {
+			return ErrV()
+		}
+		return OkV(sigsSx(sigs))
+	})
+	return L(r.L[0], Bool(r.L[1].K == 2 && len(r.L[1].L) > 0 && r.L[1].L[0].IsSym("ok")))
+}
+
 func init() {
+	regOp("conc_bsig_signer", opConcBsigSigner)
 	regOp("sxg_signer_rekey", opSxgSignerRekey)
 	regOp("conc", opConc)
 	regOp("conc_shared", opConcShared)
